@@ -838,7 +838,7 @@ class C25(Prop):
     link = False
 
     def gen(self, rng, tier):
-        nproj = {'quick': 14, 'thorough': 110, 'search': 40}.get(tier, 22)
+        nproj = {'quick': 14, 'thorough': 70, 'search': 40}.get(tier, 22)
         self.link = tier == 'thorough'
         for _ in range(nproj):
             proj = gen_project(rng)
